@@ -58,6 +58,7 @@ type GhostStmt struct {
 }
 
 type Spec struct {
+	Opaque bool
 	Pkg    string
 	Name   string
 	Params string
@@ -67,6 +68,8 @@ type Spec struct {
 }
 
 type Lemma struct {
+	Reveal []string
+	Uses   []string
 	Pkg    string
 	Name   string
 	Params string
@@ -132,6 +135,7 @@ func parseContractFile(pkg, path string) (*ContractFile, error) {
 	}
 	cf := &ContractFile{Pkg: pkg, Path: path}
 	var cur *FuncContract
+	var lastLemma *Lemma
 	// join continuation lines: a line `//@ .. text` continues the previous one
 	type ln struct {
 		s string
@@ -167,6 +171,11 @@ func parseContractFile(pkg, path string) (*ContractFile, error) {
 			cf.Decls = append(cf.Decls, rest)
 		case "spec":
 			// spec name(params) ret = expr
+			opaque := false
+			if strings.HasPrefix(rest, "opaque ") {
+				opaque = true
+				rest = strings.TrimSpace(strings.TrimPrefix(rest, "opaque "))
+			}
 			eq := strings.Index(rest, " = ")
 			if eq < 0 {
 				return nil, errf("spec without ' = '")
@@ -177,7 +186,7 @@ func parseContractFile(pkg, path string) (*ContractFile, error) {
 			if op < 0 || cl < 0 {
 				return nil, errf("bad spec header")
 			}
-			cf.Specs = append(cf.Specs, &Spec{Pkg: pkg, Name: strings.TrimSpace(head[:op]), Params: head[op+1 : cl],
+			cf.Specs = append(cf.Specs, &Spec{Opaque: opaque, Pkg: pkg, Name: strings.TrimSpace(head[:op]), Params: head[op+1 : cl],
 				Ret: strings.TrimSpace(head[cl+1:]), Expr: expr, Line: l.n})
 			cur = nil
 		case "lemma":
@@ -188,8 +197,9 @@ func parseContractFile(pkg, path string) (*ContractFile, error) {
 			if op < 0 || cl < 0 || cl+1 >= len(r) || r[cl+1] != ':' {
 				return nil, errf("bad lemma header")
 			}
-			cf.Lemmas = append(cf.Lemmas, &Lemma{Pkg: pkg, Name: strings.TrimSpace(r[:op]), Params: r[op+1 : cl],
-				Expr: strings.TrimSpace(r[cl+2:]), Tags: tags, Line: l.n})
+			lastLemma = &Lemma{Pkg: pkg, Name: strings.TrimSpace(r[:op]), Params: r[op+1 : cl],
+				Expr: strings.TrimSpace(r[cl+2:]), Tags: tags, Line: l.n}
+			cf.Lemmas = append(cf.Lemmas, lastLemma)
 			cur = nil
 		case "lockinv":
 			// lockinv [tags] Type.mutexpath (name): expr   guards f1, f2 given by separate 'guards' line
@@ -226,6 +236,7 @@ func parseContractFile(pkg, path string) (*ContractFile, error) {
 			if m == nil {
 				return nil, errf("bad func header %q", t)
 			}
+			lastLemma = nil
 			cur = &FuncContract{Pkg: pkg, Recv: m[3], Name: m[5], Header: t, LoopInv: map[int][]*Clause{},
 				LoopDec: map[int]*Clause{}, LoopMod: map[int][]*ModItem{}, Attrs: map[string]string{}, Line: l.n, File: path}
 			cf.Funcs = append(cf.Funcs, cur)
@@ -282,6 +293,29 @@ func parseContractFile(pkg, path string) (*ContractFile, error) {
 				return nil, errf("bad ghost")
 			}
 			cur.Ghost = append(cur.Ghost, &GhostStmt{Anchor: strings.TrimSpace(rest[:colon]), Stmt: strings.TrimSpace(rest[colon+1:])})
+		case "reveal", "uses":
+			var items []string
+			for _, it := range strings.Split(rest, ",") {
+				if it = strings.TrimSpace(it); it != "" {
+					items = append(items, it)
+				}
+			}
+			if cur == nil {
+				if lastLemma == nil {
+					return nil, errf("%s outside func or lemma", word)
+				}
+				if word == "reveal" {
+					lastLemma.Reveal = append(lastLemma.Reveal, items...)
+				} else {
+					lastLemma.Uses = append(lastLemma.Uses, items...)
+				}
+				break
+			}
+			if old, ok := cur.Attrs[word]; ok {
+				cur.Attrs[word] = old + "," + strings.Join(items, ",")
+			} else {
+				cur.Attrs[word] = strings.Join(items, ",")
+			}
 		case "trusted", "inline", "pure", "atomic", "constructor", "nopanic", "holds", "noframe", "unfold", "callback", "bind", "yields", "assume_entry", "thread":
 			if cur == nil {
 				return nil, errf("%s outside func", word)
@@ -372,36 +406,56 @@ func rewriteExpr(s string) string {
 
 func rewriteTop(s string) string {
 	s = strings.TrimSpace(s)
-	// quantifier at the start
+	// position of the first top-level quantifier and of the first top-level ==> / <==>
+	qpos, qword := -1, ""
 	for _, q := range []string{"forall", "exists"} {
-		if strings.HasPrefix(s, q+" ") {
-			i := indexTop(s, "::")
+		from := 0
+		for {
+			i := indexTop(s[from:], q+" ")
 			if i < 0 {
-				panic("quantifier without '::' in " + s)
+				break
 			}
-			binder := strings.TrimSpace(s[len(q):i])
-			body := rewriteTop(s[i+2:])
-			fn := "gcForall"
-			if q == "exists" {
-				fn = "gcExists"
+			i += from
+			if i == 0 || !isIdentChar(s[i-1]) {
+				if qpos < 0 || i < qpos {
+					qpos, qword = i, q
+				}
+				break
 			}
-			// binder: "x T" or "x, y T"
-			sp := strings.LastIndex(binder, " ")
-			names, typ := binder[:sp], strings.TrimSpace(binder[sp+1:])
-			// allow types containing spaces? keep simple: last space separates
-			vars := strings.Split(names, ",")
-			out := body
-			for k := len(vars) - 1; k >= 0; k-- {
-				out = fmt.Sprintf("%s(func(%s %s) bool { return %s })", fn, strings.TrimSpace(vars[k]), typ, out)
-			}
-			return out
+			from = i + 1
 		}
 	}
-	if i := indexTop(s, "<==>"); i >= 0 {
-		return "((" + rewriteTop(s[:i]) + ") == (" + rewriteTop(s[i+4:]) + "))"
+	ipos := indexTop(s, "==>")
+	epos := indexTop(s, "<==>")
+	if epos >= 0 && (qpos < 0 || epos < qpos) && (ipos < 0 || epos < ipos) {
+		return "((" + rewriteTop(s[:epos]) + ") == (" + rewriteTop(s[epos+4:]) + "))"
 	}
-	if i := indexTop(s, "==>"); i >= 0 {
-		return "gcImplies(" + rewriteTop(s[:i]) + ", " + rewriteTop(s[i+3:]) + ")"
+	if ipos >= 0 && (qpos < 0 || ipos < qpos) {
+		return "gcImplies(" + rewriteTop(s[:ipos]) + ", " + rewriteTop(s[ipos+3:]) + ")"
+	}
+	if qpos > 0 {
+		return rewriteInner(s[:qpos]) + rewriteTop(s[qpos:])
+	}
+	if qpos == 0 {
+		q := qword
+		i := indexTop(s, "::")
+		if i < 0 {
+			panic("quantifier without '::' in " + s)
+		}
+		binder := strings.TrimSpace(s[len(q):i])
+		body := rewriteTop(s[i+2:])
+		fn := "gcForall"
+		if q == "exists" {
+			fn = "gcExists"
+		}
+		sp := strings.LastIndex(binder, " ")
+		names, typ := binder[:sp], strings.TrimSpace(binder[sp+1:])
+		vars := strings.Split(names, ",")
+		out := body
+		for k := len(vars) - 1; k >= 0; k-- {
+			out = fmt.Sprintf("%s(func(%s %s) bool { return %s })", fn, strings.TrimSpace(vars[k]), typ, out)
+		}
+		return out
 	}
 	return rewriteInner(s)
 }
